@@ -20,7 +20,8 @@ def pow_mod(it, x, y, m, node):
         for _ in range(y):
             r = r * zi(x)
         if isinstance(m, int):
-            return mk_int(r % m)
+            from .models import strip_mod
+            return mk_int(strip_mod(r, m) % m)
         if it.ctx.valid(zi(m) > 0):
             return mk_int(r % zi(m))
     r = F_powmod(zi(x), zi(y), zi(m))
